@@ -50,15 +50,15 @@ theorem drop_to_first (dc : List Frame) (f : Frame) (cs0 : List Frame) :
     stack are back, command_giver is the saved one, the chain is untouched, exactly the handlers of the popped
     segment ran (top first), and the registers are those saved in the first frame pushed after the save -/
 theorem restoreContext_ext (m' : M) (dv : List Slot) (vs0 : List Slot) (dc : List Frame) (cs0 : List Frame)
-    (cg0 : Val) (hv : m'.vs = dv ++ vs0) (hc : m'.cs = dc ++ cs0) (ld0 : Int := 0) (rd0 : Val := 0) :
-    ∃ m'', restoreContext { saveSp := vs0.length, saveCsp := cs0.length, saveCg := cg0, saveLd := ld0, saveRd := rd0 } m' = .ok m'' ∧
+    (cg0 : Val) (hv : m'.vs = dv ++ vs0) (hc : m'.cs = dc ++ cs0) (ld0 : Int := 0) (rd0 : Val := 0) (vb0 : Val := 0) :
+    ∃ m'', restoreContext { saveSp := vs0.length, saveCsp := cs0.length, saveCg := cg0, saveLd := ld0, saveRd := rd0, saveVerb := vb0 } m' = .ok m'' ∧
       m''.vs = vs0 ∧ m''.cs = cs0 ∧ m''.cg = cg0 ∧ m''.ctxs = m'.ctxs ∧
       m''.ran = (handlerIds dv).reverse ++ m'.ran ∧
       (dc = [] → m''.r = m'.r) ∧ (∀ f, dc.getLast? = some f → m''.r = f.saved) ∧
       m''.loadDepth = ld0 ∧ m''.restrictDestruct = rd0 ∧
-      m''.catchValue = m'.catchValue ∧ m''.errState = m'.errState ∧ m''.installed = m'.installed := by
+      m''.catchValue = m'.catchValue ∧ m''.errState = m'.errState ∧ m''.installed = m'.installed ∧ m''.lastVerb = vb0 := by
   cases m' with
-  | mk cg r vs cs ctxs catchValue lastCatch errState loadDepth restrictDestruct inError inMudlibHandler ran installed fault shape out maxDepth staleCatch =>
+  | mk cg r vs cs ctxs catchValue lastCatch errState loadDepth restrictDestruct inError inMudlibHandler ran installed fault shape out maxDepth staleCatch lastVerb hbCur hbOff =>
   simp only at hv hc
   subst hv hc
   rcases List.eq_nil_or_concat dc with hnil | ⟨dc', f, hcat⟩
@@ -67,8 +67,8 @@ theorem restoreContext_ext (m' : M) (dv : List Slot) (vs0 : List Slot) (dc : Lis
       { cg := cg0, r := r, vs := dv ++ vs0, cs := cs0, ctxs := ctxs, catchValue := catchValue, lastCatch := lastCatch,
         errState := errState, loadDepth := ld0, restrictDestruct := rd0, inError := inError,
         inMudlibHandler := inMudlibHandler, ran := ran, installed := installed, fault := fault, shape := shape,
-        out := out, maxDepth := maxDepth, staleCatch := staleCatch } vs0 rfl
-    refine ⟨m3, ?_, hv3, ?_, ?_, ?_, hr3, ?_, ?_, ?_, ?_, ?_, ?_, ?_⟩
+        out := out, maxDepth := maxDepth, staleCatch := staleCatch, lastVerb := vb0, hbCur := hbCur, hbOff := hbOff } vs0 rfl
+    refine ⟨m3, ?_, hv3, ?_, ?_, ?_, hr3, ?_, ?_, ?_, ?_, ?_, ?_, ?_, ?_⟩
     · have hlt : ¬ (dv.length + vs0.length < vs0.length) := by omega
       have e : dv.length + vs0.length - vs0.length = dv.length := by omega
       simp [restoreContext, hlt, e, hp]
@@ -79,8 +79,8 @@ theorem restoreContext_ext (m' : M) (dv : List Slot) (vs0 : List Slot) (dc : Lis
       { cg := cg0, r := f.saved, vs := dv ++ vs0, cs := cs0, ctxs := ctxs, catchValue := catchValue, lastCatch := lastCatch,
         errState := errState, loadDepth := ld0, restrictDestruct := rd0, inError := inError,
         inMudlibHandler := inMudlibHandler, ran := ran, installed := installed, fault := fault, shape := shape,
-        out := out, maxDepth := maxDepth, staleCatch := staleCatch } vs0 rfl
-    refine ⟨m3, ?_, hv3, ?_, ?_, ?_, hr3, ?_, ?_, ?_, ?_, ?_, ?_, ?_⟩
+        out := out, maxDepth := maxDepth, staleCatch := staleCatch, lastVerb := vb0, hbCur := hbCur, hbOff := hbOff } vs0 rfl
+    refine ⟨m3, ?_, hv3, ?_, ?_, ?_, hr3, ?_, ?_, ?_, ?_, ?_, ?_, ?_, ?_⟩
     · have hlen : cs0.length < (dc' ++ [f] ++ cs0).length := by simp; omega
       have hd := drop_to_first dc' f cs0
       have hd' : (dc' ++ [f] ++ cs0).drop ((dc' ++ [f] ++ cs0).length - (cs0.length + 1)) = f :: cs0 := by
